@@ -1,6 +1,7 @@
 package main
 
 import (
+	"strconv"
 	"fmt"
 	"go/ast"
 	"os"
@@ -906,6 +907,17 @@ func (fx *FX) pureEvalFn(fn *ssa.Function, args []Val, st *State, depth int) Val
 
 // localVar resolves a source-level local variable name at a loop header.
 func (a *act) localVar(name string, header *ssa.BasicBlock, st *State) (Val, bool) {
+	// $kN / $rN: iteration counter / ranged slice of the enclosing range loop with index N
+	if len(name) > 2 && (strings.HasPrefix(name, "$k") || strings.HasPrefix(name, "$r")) {
+		if n, err := strconv.Atoi(name[2:]); err == nil {
+			for _, li := range a.loops {
+				if li.index == n {
+					return a.localVar(name[:2], li.header, st)
+				}
+			}
+			specErrf("no loop %d for %s", n, name)
+		}
+	}
 	if header != nil {
 		for _, in := range header.Instrs {
 			phi, ok := in.(*ssa.Phi)
